@@ -75,4 +75,61 @@ structure Contract {σ : Type} (o : CacheOps σ) (wf : σ → Prop) : Prop where
   /-- held keys are pairwise distinct -/
   keys_distinct : ∀ s, wf s → (o.held s).Pairwise (fun a b => a.key ≠ b.key)
 
+/-! ### The stated eviction policy of LRU and FIFO, written down independently of the linked list
+
+"LRU / FIFO … eviction behavior where Unused Blocks are preferentially evicted": retained blocks wait in
+two queues in order of arrival — those that had been read from when they were put (`used`) and those that
+had not (`unused`).  Eviction takes the newest unused block if there is one, otherwise the oldest used
+block.  (`Get` removes, so for LRU "least recently used" is "least recently put".) -/
+
+structure PolicyQ where
+  cap : Int
+  /-- oldest first -/
+  used : List Entry
+  /-- oldest first -/
+  unused : List Entry
+deriving DecidableEq, Repr
+
+namespace PolicyQ
+
+def new (n : Int) : PolicyQ := ⟨n, [], []⟩
+
+def len (q : PolicyQ) : Int := q.used.length + q.unused.length
+
+def holds (q : PolicyQ) (k : Int) : Bool := hasKey q.used k || hasKey q.unused k
+
+/-- the victim and the state without it -/
+def evict (q : PolicyQ) : Option (Entry × PolicyQ) :=
+  match q.unused.getLast? with
+  | some v => some (v, { q with unused := q.unused.dropLast })
+  | none =>
+    match q.used with
+    | [] => none
+    | v :: t => some (v, { q with used := t })
+
+def put (h : Heap) (q : PolicyQ) (id : Nat) : PolicyQ × PutRes :=
+  let b := h id
+  if q.holds b.base then (q, .refused)
+  else if q.len = q.cap then
+    if !b.used then (q, .refused)
+    else match q.evict with
+      | none => (q, .panic)
+      | some (v, q') => ({ q' with used := q'.used ++ [⟨b.base, id⟩] }, .kept (some v.id))
+  else if b.used then ({ q with used := q.used ++ [⟨b.base, id⟩] }, .kept none)
+  else ({ q with unused := q.unused ++ [⟨b.base, id⟩] }, .kept none)
+
+def removeKeyQ (q : PolicyQ) (k : Int) : PolicyQ :=
+  { q with used := removeKey q.used k, unused := removeKey q.unused k }
+
+def find (q : PolicyQ) (k : Int) : Option Entry := (lookup q.unused k).or (lookup q.used k)
+
+/-- evict `n` times (stops when empty) -/
+def dropN (q : PolicyQ) : Nat → PolicyQ
+  | 0 => q
+  | n + 1 => match q.evict with
+    | none => q
+    | some (_, q') => dropN q' n
+
+end PolicyQ
+
 end Hts.Spec.CacheContract
